@@ -121,7 +121,7 @@ func dumpUnder(path string, faults []trace.Fault, budget int) (*e1.Dump, *disk.S
 	disk.InstallPool(pool)
 	defer disk.Install(nil)
 	defer disk.InstallPool(nil)
-	d := e1.DumpFile(path, e1.DumpOpts{})
+	d := e1.DumpFile(path, e1.DumpOpts{Extra: true})
 	return d, sim
 }
 
@@ -167,6 +167,18 @@ func truncationLengths(path string, size int64, seed uint64, exhaustiveLimit int
 
 func genC17(r *rng.R, tier string, steer bool, idx int) *trace.Trace {
 	var t *trace.Trace
+	// The small reference files (<= 4 KiB: every truncation length and every read
+	// position costs about a second of one core per file) are part of every run,
+	// not sampled: run indices 0 .. 2*len-1 enumerate them in both reader modes.
+	if small := Corpus(4096); idx < 2*len(small) {
+		if base := small[idx/2]; !HasHugeDataset(base) {
+			t = &trace.Trace{Config: trace.Config{SB: 2, Base: base, Mode: []string{"trunc", "readfault"}[idx%2]}}
+			if tier == "thorough" {
+				t.Config.Extra = append(t.Config.Extra, "thorough")
+			}
+			return t
+		}
+	}
 	mode := rng.Pick(r, []string{"trunc", "trunc", "readfault", "readfault", "writefault", "writefault", "writefault"})
 	useCorpus := mode != "writefault" && r.Chance(0.35)
 	if useCorpus {
@@ -336,7 +348,11 @@ func execC17(t *trace.Trace, dir string) *harness.RunResult {
 	case "writefault":
 		wt := t.Clone()
 		wt.Faults = nil
-		golden := e1.Run(wt, e1.Options{Dir: dir, Property: "C17", NoFinalCheck: true, KeepLog: true})
+		golden := e1.Run(wt, e1.Options{Dir: dir, Property: "C17", NoFinalCheck: true, KeepLog: true, KeepFile: true})
+		goldenDecoded := decodedDigest(golden.Path)
+		if golden.Path != "" {
+			_ = os.Remove(golden.Path)
+		}
 		if golden.Final == nil || golden.Final.OpenErr != "" || golden.Final.Panic != "" {
 			res.Probes["golden-unusable"]++
 			return res
@@ -391,9 +407,17 @@ func execC17(t *trace.Trace, dir string) *harness.RunResult {
 				continue
 			}
 			harness.AnnounceFault(f)
-			out := e1.Run(ft, e1.Options{Dir: dir, Property: "C17", NoFinalCheck: true})
+			out := e1.Run(ft, e1.Options{Dir: dir, Property: "C17", NoFinalCheck: true, KeepFile: true})
+			outPath := out.Path
+			rmOut := func() {
+				if outPath != "" {
+					_ = os.Remove(outPath)
+					outPath = ""
+				}
+			}
 			res.SubRuns++
 			if len(out.FiredOps) == 0 {
+				rmOut()
 				continue
 			}
 			res.Fired[p.kind]++
@@ -431,18 +455,25 @@ func execC17(t *trace.Trace, dir string) *harness.RunResult {
 			}
 			if reported {
 				res.Probes["fault-reported-as-error"]++
+				rmOut()
 				continue
 			}
 			// every call returned nil although the fault fired: then the result
 			// after restart must be exactly the fault-free result
 			if out.Final == nil {
+				rmOut()
 				continue
 			}
 			if ok, why := golden.Final.Equal(out.Final); !ok {
 				c.violate("swallowed-io-error", p.kind+"@"+fn, fmt.Sprintf("%s at I/O step %d (in %s) was not reported by any call, and the reopened file differs from the fault-free one: %s", p.kind, p.k, fn, why), f)
+			} else if dd := decodedDigest(outPath); goldenDecoded != "" && dd != "" && dd != goldenDecoded {
+				// content the public read API cannot show (variable-length elements
+				// resolved through the global heap), as the independent decoder sees it
+				c.violate("swallowed-io-error", p.kind+"@"+fn, fmt.Sprintf("%s at I/O step %d (in %s) was not reported by any call, and the stored content (independent decode: datasets, variable-length elements, attributes) differs from the fault-free file", p.kind, p.k, fn), f)
 			} else {
 				res.Probes["fault-without-effect"]++
 			}
+			rmOut()
 		}
 		res.NonTrivial = res.SubRuns > 0 && golden.OKOps > 0
 		res.Fingerprint = fmt.Sprintf("writefault|sb%d|%d|%d", t.Config.SB, golden.WriterSteps, golden.OKOps)
@@ -453,7 +484,7 @@ func execC17(t *trace.Trace, dir string) *harness.RunResult {
 func init() {
 	harness.Register(&harness.Prop{
 		ID: "C17", Engine: "E2", Level: "fault_enumeration", Gen: genC17, Exec: execC17,
-		Runs:      map[string]int{"quick": 640, "thorough": 16000},
+		Runs:      map[string]int{"quick": 1000, "thorough": 16000},
 		Rule:      "per workload (an E1 history that writes a file, or a bundled reference file) faults are ENUMERATED: every truncation length 0..size-1 (files <= 16 KiB quick / 64 KiB thorough; larger: every structure boundary +-1 plus a stratified sample), every position k of a failing ReadAt in the reader's I/O sequence, and for writers every position k of a failing WriteAt/ReadAt/Sync plus a torn (half-persisted) variant of every write; relaxed oracle: each API result is an error or exactly the fault-free result, members/attributes never silently missing, no panic, and a fault that no call reported must leave the reopened file identical to the fault-free one; evaluations counts workloads plus every enumerated fault run; non-trivial = the workload's golden answer is non-empty and at least one fault fired inside an operation; distinct by (mode, workload identity, size, object count)",
 		Technique: "deterministic fault enumeration over the I/O step sequence of simulated runs (failing/torn calls, truncation) with a relaxed golden-answer oracle",
 		Assumptions: []string{"the statement is silent about file content after a call failed with an I/O error: only 'no panic' and 'an unreported fault changes nothing' are checked there",
@@ -465,4 +496,42 @@ func init() {
 		MemLimitMiB:    4096,
 		HangSeconds:    60,
 	})
+}
+
+// decodedDigest renders what the independent decoder recovers from a closed
+// file - per path: kind, shape, stored element bytes, variable-length elements,
+// attributes - as one comparable string ("" when the file is unreadable).
+func decodedDigest(path string) string {
+	if path == "" {
+		return ""
+	}
+	b, err := os.ReadFile(path)
+	if err != nil || len(b) == 0 {
+		return ""
+	}
+	r := specdec.Decode(b)
+	type row struct{ p, v string }
+	var rows []row
+	seen := map[string]bool{}
+	r.Walk(func(p string, o *specdec.Object, l *specdec.Link) {
+		if seen[p] || o == nil {
+			return
+		}
+		seen[p] = true
+		h := func(x []byte) uint64 { return uint64(specdec.Lookup3(x, 0))<<32 | uint64(specdec.Lookup3(x, 7)) }
+		v := fmt.Sprintf("%s|%v|%d:%x|%s|vl%d", o.Kind, o.Dims, len(o.Data), h(o.Data), o.DataErr, len(o.VLen))
+		for _, e := range o.VLen {
+			v += fmt.Sprintf(",%d:%x", len(e), h(e))
+		}
+		for _, a := range o.Attrs {
+			v += fmt.Sprintf("|@%s=%d:%x", a.Name, len(a.Data), h(a.Data))
+		}
+		rows = append(rows, row{p, v})
+	})
+	sort.Slice(rows, func(i, j int) bool { return rows[i].p < rows[j].p })
+	var sb strings.Builder
+	for _, x := range rows {
+		sb.WriteString(x.p + "=" + x.v + "\n")
+	}
+	return sb.String()
 }
